@@ -58,6 +58,16 @@ func (pass *FilterSchemas) buildAllowList(schemas ast.Schemas, entrypoints []Obj
 
 			return def, nil
 		},
+		OnConstantRef: func(_ *Visitor, _ *ast.Schema, def ast.Type) (ast.Type, error) {
+			referredObj, found := schemas.LocateObject(def.ConstantReference.ReferredPkg, def.ConstantReference.ReferredType)
+			if !found {
+				return def, nil
+			}
+
+			rootObjects.Set(referredObj.SelfRef.String(), referredObj)
+
+			return def, nil
+		},
 	}
 
 	for {
